@@ -196,6 +196,7 @@ def run(repo: Repo, chk: Check) -> None:
     except Unsupported as e:
         raise AnalysisError(f"codec left the idiom table: {e}")
     decoders_bounded(repo, chk, "O3", ["_rpc._pdu", "_rpc._bind", "_rpc._request", "_rpc._verification", "_epm"])
+    stateless_codecs(repo, chk, "O1", ["_rpc._pdu", "_rpc._bind", "_rpc._request", "_rpc._verification", "_epm"])
     registries(repo, chk, "O4")
     open_enums(repo, chk, "O4")
     vt_end_flag(repo, chk, "O4")
@@ -543,3 +544,49 @@ def vt_end_flag(repo: Repo, chk: Check, rule: str) -> None:
             ok = False
     chk.table("VT loop exit truth table (flags -> exit)", table)
     chk.ob(rule, site, ok, "exit <=> END bit set, for all flag combinations" if ok else f"loop exit {unparse(test)} disagrees with 'END bit set' on {[t_ for t_ in table if t_[1] != bool(int(t_[0], 16) & end)]}")
+
+
+MUTATORS = ("append", "extend", "add", "update", "setdefault", "pop", "popitem", "clear", "insert", "remove", "discard", "__setitem__", "move_to_end")
+
+
+def stateless_codecs(repo: Repo, chk: Check, rule: str, modules: t.Sequence[str]) -> None:
+    """A pack / unpack function is a function of its argument alone: no module or class level container that a codec
+    function also writes (a memo keyed by part of the input answers a later, different input with an earlier result).
+    Registries filled by decorators at import time are not written from codec functions and stay legal."""
+    n = 0
+    for q, f in sorted(repo.funcs.items()):
+        if f.mod.name not in modules or "pack" not in f.name:
+            continue
+        n += 1
+        chk.analysed(f)
+        for x in body_nodes(f.node):
+            tgt: t.Optional[ast.expr] = None
+            if isinstance(x, (ast.Assign, ast.AugAssign)):
+                for tg in x.targets if isinstance(x, ast.Assign) else [x.target]:
+                    if isinstance(tg, ast.Subscript):
+                        tgt = tg.value
+            elif isinstance(x, ast.Call) and isinstance(x.func, ast.Attribute) and x.func.attr in MUTATORS:
+                tgt = x.func.value
+            elif isinstance(x, ast.Global):
+                chk.ob(rule, Site.of(f, x, "global " + ", ".join(x.names)), False, f"{f.qual} rebinds module state ({', '.join(x.names)}): its result can depend on earlier calls")
+                continue
+            if tgt is None:
+                continue
+            shared = None
+            if isinstance(tgt, ast.Name) and tgt.id in f.mod.consts and not _is_local(f, tgt.id):
+                shared = tgt.id
+            elif isinstance(tgt, ast.Attribute) and isinstance(tgt.value, ast.Name) and tgt.value.id == "cls":
+                shared = "cls." + tgt.attr
+            elif isinstance(tgt, ast.Attribute) and isinstance(tgt.value, ast.Name) and f.cls is not None and tgt.value.id == f.cls.name:
+                shared = unparse(tgt)
+            if shared is not None:
+                chk.ob(rule, Site.of(f, x, f"write to {shared}"), False, f"{f.qual} writes the shared container {shared}: a codec with memory - a later input that agrees with an earlier one on the key is answered with the earlier result, so decode(encode(v)) / encode(decode(b)) can differ from v / b depending on the history of calls")
+    chk.count("codec functions checked for state", n)
+    chk.ob(rule, Site("src/dpapi_ng", "codec functions", 0, "pack/unpack functions write no shared container"), n > 0, f"{n} codec function(s) inspected")
+
+
+def _is_local(f: t.Any, name: str) -> bool:
+    for x in body_nodes(f.node):
+        if isinstance(x, ast.Name) and x.id == name and isinstance(x.ctx, ast.Store):
+            return True
+    return name in f.params
